@@ -5,7 +5,7 @@
 # On success stores it under /verif/seeded/<Cxx>-<N>/.
 set -u
 export GOFLAGS=-mod=mod GOPROXY=off GOSUMDB=off GOTOOLCHAIN=local
-ID=$1; N=$2; SRC=/tmp/seed/$ID
+ID=$1; N=$2; SRC=${SEED_SRC:-/tmp/seed}/$ID
 PATCH=$SRC/mut$N.diff; DEMO=$SRC/demo${N}_test.go; META=$SRC/meta$N.json
 WT=/tmp/mt/confirm-$ID-$N-$$
 mkdir -p /tmp/mt
